@@ -47,6 +47,9 @@ def wft_z(eng, Q, k):
         tb, te = int(eng.repo.class_attr(cls, 'token_begin')), int(eng.repo.class_attr(cls, 'token_end'))
         fs.append(Implies(ct == tb, tx == pystr(b)))
         fs.append(Implies(ct == te, tx == pystr(e)))
+        for lit in (b, e):       # NW on the delimiter literals (computed)
+            fs.append(NW(pystr(lit)) == pystr(''.join(ch for ch in lit if ch not in ' \t\n\r')))
+    fs.append(NW(pystr('\\')) == pystr('\\'))
     return And(*fs)
 
 
@@ -132,6 +135,13 @@ MOVE_IMAGE_HOOKS.append(lambda st, cond, whole, left, right: st.fact(
     Implies(cond, And(NW(whole) == Concat(NW(left), NW(right)), NW(Empty(Str)) == Empty(Str)))))
 
 
+def nw_base(eng, st, names):
+    st.fact(NW(Empty(Str)) == Empty(Str))
+
+
+REG.entry_hooks.append(nw_base)
+
+
 def span_anchor(expr):
     """init hook: one more anchor (e.g. the opener token before the cursor) for the additivity instances"""
     def hook(eng, st, names):
@@ -194,3 +204,169 @@ REG.add(Contract(
         P(['C08', 'C01'], 'exact-when-tight', 'tolerance == 0 and tight(result) ==> ser(result) == ' + _RE_SPAN),
         P(['C08'], 'conserves-non-blank', 'tolerance == 0 and clean(result) ==> NW(ser(result)) == NW(%s)' % _RE_SPAN),
         G('not-bare', 'not isbare(result)')]))
+
+
+# ---------------------------------------------------------------------- argument loops
+def args_clauses(old_items, old_i, strict='tolerance == 0'):
+    """conservation of an argument list that grew from `old_items` while the cursor moved from `old_i`"""
+    span = Wx(old_i, 'src.i')
+    return [
+        ('grows', 'len(args.items) >= len(%s)' % old_items),
+        ('tight-monotone', 'TAg(args.items) ==> TAg(%s)' % old_items),
+        ('clean-monotone', 'CLN(args.items) ==> CLN(%s)' % old_items),
+        ('bare-monotone', 'bare(%s) ==> bare(args.items)' % old_items),
+        ('exact', '%s and TAg(args.items) ==> SL(args.items) == concat(SL(%s), %s)' % (strict, old_items, span)),
+        ('non-blank', '%s and CLN(args.items) and not bare(args.items) ==> '
+                      'NW(SL(args.items)) == concat(NW(SL(%s)), NW(%s))' % (strict, old_items, span)),
+        ('groups-or-commands', 'forall(k, 0, len(args.items), isarg(args.items[k]))'),
+    ]
+
+
+def count_clauses(var, init):
+    return [('count-le', '%s <= %s' % (var, init)), ('count-neg', '%s < 0 ==> %s < 0' % (init, var)),
+            ('count-nonneg', '%s >= 0 ==> %s >= 0' % (init, var))]
+
+
+ARGS_REQ = SRC_REQ + [A('groups-or-commands', 'forall(k, 0, len(args.items), isarg(args.items[k]))')]
+_LOOP_TYPES = {'src': 'Buffer', 'args': 'TexArgs', 'tolerance': 'int', 'mode': 'str'}
+
+for _fn, _n, _open, _props in (('read_arg_optional', 'n_optional', 'TC.BracketBegin', ['C09']),
+                               ('read_arg_required', 'n_required', 'TC.GroupBegin', ['C09'])):
+    _maximal = ('result == 0 or src.i == len(src.Q) or (src.Q[src.i].cat != %s and not (src.Q[src.i].cat == '
+                'TC.MergedSpacer and src.i + 1 < len(src.Q) and src.Q[src.i + 1].cat == %s))' % (_open, _open))
+    _ens = [P(['C08', 'C01'] if l in ('exact', 'non-blank') else [], l, t) if l in ('exact', 'non-blank') else A(l, t)
+            for l, t in args_clauses('old(args.items)', 'old(src.i)')]
+    _ens += [A(l, t) for l, t in count_clauses('result', _n)]
+    _ens.append(P(_props + ['C08'], 'maximal-run-spacer-rolled-back', _maximal) if _fn == 'read_arg_optional' else
+                P(_props + ['C08'], 'maximal-run-spacer-rolled-back',
+                  '%s <= 0 ==> (%s)' % (_n, _maximal)))
+    if _fn == 'read_arg_optional':
+        _ens.append(A('no-bare-added', 'bare(args.items) == bare(old(args.items))'))
+    else:
+        _ens.append(P(['C08'], 'bare-only-with-signature', '%s <= 0 ==> bare(args.items) == bare(old(args.items))' % _n))
+    _inv = [A(l, t) for l, t in args_clauses('old(args.items)', 'old(src.i)')] + \
+           [A(l, t) for l, t in count_clauses(_n, 'old(%s)' % _n)] + \
+           [A('inv', 'inv(src)'), A('range', 'old(src.i) <= src.i and src.i <= len(src.Q)')]
+    if _fn == 'read_arg_optional':
+        _inv.append(A('no-bare-added', 'bare(args.items) == bare(old(args.items))'))
+    else:
+        _inv.append(A('bare-only-with-signature', 'old(%s) <= 0 ==> bare(args.items) == bare(old(args.items))' % _n))
+    REG.add(Contract(
+        'reader.' + _fn, types=dict(_LOOP_TYPES, **{_n: 'int'}), result='int', requires=ARGS_REQ,
+        modifies=['src.i', 'src.m', 'args.items'], props=['C06', 'C08', 'C09', 'C01'],
+        measure=(MEASURE, RANK[_fn]), raises=dict(ALLOWED), ensures=SRC_KEEP + _ens,
+        loops={0: Loop(invariant=_inv, decreases=MEASURE + ' + 1', modifies=['src.i', 'src.m', 'args.items'])}))
+
+# ---------------------------------------------------------------------- read_args
+_AR_SPAN = Wx('old(src.i)', 'src.i')
+REG.add(Contract(
+    'reader.read_args',
+    types={'src': 'Buffer', 'n_required': 'int', 'n_optional': 'int', 'args': 'none', 'tolerance': 'int', 'mode': 'str'},
+    result='TexArgs', requires=SRC_REQ, modifies=['src.i', 'src.m'], props=['C06', 'C08', 'C09', 'C12', 'C01'],
+    measure=(MEASURE, RANK['read_args']), raises=dict(ALLOWED),
+    ensures=SRC_KEEP + [
+        P(['C08', 'C01'], 'exact', 'tolerance == 0 and TAg(result.items) ==> SL(result.items) == ' + _AR_SPAN),
+        P(['C08'], 'non-blank', 'tolerance == 0 and CLN(result.items) and not bare(result.items) ==> '
+                                'NW(SL(result.items)) == NW(%s)' % _AR_SPAN),
+        P(['C12'], 'zero-signature-takes-nothing',
+          'n_required == 0 and n_optional == 0 ==> src.i == old(src.i) and len(result.items) == 0'),
+        P(['C08'], 'bare-only-with-signature', 'n_required <= 0 ==> not bare(result.items)'),
+        A('groups-or-commands', 'forall(k, 0, len(result.items), isarg(result.items[k]))')]))
+
+
+# ---------------------------------------------------------------------- read_command
+def _sig(eng, pred):
+    sig = eng.repo.glob('reader', 'SIGNATURES')
+    return [k for k, v in sig.items() if pred(tuple(v))]
+
+
+@REG.specfun('zero_arg_name')
+def _zero_arg_name(ctx, t):
+    """the command is in the signature table with (0, 0)"""
+    return VB(ops.disj([strz(t) == pystr(k) for k in _sig(ctx.engine, lambda v: v == (0, 0))]))
+
+
+@REG.specfun('bare_arg_name')
+def _bare_arg_name(ctx, t):
+    """the signature table gives the command mandatory arguments (which may then be bare tokens)"""
+    return VB(ops.disj([strz(t) == pystr(k) for k in _sig(ctx.engine, lambda v: v[0] > 0)]))
+
+
+_BUF = lambda s: s.replace('src', 'buf')
+_RC_SPAN = 'W(buf, old(buf.i) + skip + 1, buf.i)'
+_HASNAME = 'old(buf.i) + skip < len(buf.Q)'
+REG.add(Contract(
+    'reader.read_command',
+    types={'buf': 'Buffer', 'n_required_args': 'int', 'n_optional_args': 'int', 'skip': 'int', 'tolerance': 'int',
+           'mode': 'str'},
+    result='tuple[tok,TexArgs]',
+    requires=[A('inv', 'inv(buf)'), A('token-stream', 'forall(k, 0, len(buf.Q), wft(buf, k))'),
+              A('skip', '0 <= skip and buf.i + skip <= len(buf.Q)')],
+    modifies=['buf.i', 'buf.m'], props=['C06', 'C08', 'C02', 'C12', 'C01'],
+    measure=('len(buf.Q) - buf.i', RANK['read_command']), raises=dict(ALLOWED),
+    ensures=[A('inv', 'inv(buf)'), A('cursor-in-range', 'buf.i <= len(buf.Q)'),
+             A('cursor-monotone', 'buf.i >= old(buf.i) + skip'),
+             P(['C02'], 'name-token', _HASNAME + ' ==> result[0] == buf.Q[old(buf.i) + skip] and buf.i >= old(buf.i) + skip + 1'),
+             P(['C06'], 'lone-backslash', 'not (%s) ==> len(result[0].text) == 0 and len(result[1].items) == 0 and '
+                                          'buf.i == old(buf.i) + skip' % _HASNAME),
+             P(['C08', 'C01'], 'exact', '%s and tolerance == 0 and TAg(result[1].items) ==> SL(result[1].items) == %s'
+               % (_HASNAME, _RC_SPAN)),
+             P(['C08'], 'non-blank', '%s and tolerance == 0 and CLN(result[1].items) and not bare(result[1].items) ==> '
+                                     'NW(SL(result[1].items)) == NW(%s)' % (_HASNAME, _RC_SPAN)),
+             P(['C12'], 'zero-argument-operators-take-nothing',
+               '%s and n_required_args < 0 and n_optional_args < 0 and zero_arg_name(buf.Q[old(buf.i) + skip]) ==> '
+               'buf.i == old(buf.i) + skip + 1 and len(result[1].items) == 0' % _HASNAME),
+             P(['C08'], 'bare-only-with-signature',
+               '%s and n_required_args < 0 and n_optional_args < 0 and not bare_arg_name(buf.Q[old(buf.i) + skip]) ==> '
+               'not bare(result[1].items)' % _HASNAME),
+             A('no-bare-when-none-required', 'n_required_args == 0 ==> not bare(result[1].items)'),
+             A('groups-or-commands', 'forall(k, 0, len(result[1].items), isarg(result[1].items[k]))')],
+    loops={0: Loop(invariant=[A('inv', 'inv(buf)'), A('cursor', 'buf.i == old(buf.i) + _k'), A('bound', '_k <= skip')],
+                   modifies=['buf.i', 'buf.m'])}))
+
+REG.inline.add('reader.make_read_peek')
+
+data_c.HEAD_HOOKS.append(lambda st, xs, head, tail, nonempty: st.fact(
+    Implies(nonempty, CLN(xs) == And(clean(head), CLN(tail)))))
+_tree.LEAF_HOOKS.append(lambda st, e: st.fact(And(clean(e), Not(isbare(e)))))
+
+
+# ---------------------------------------------------------------------- read_item
+_STOP_ITEM = ('src.i == len(src.Q) or src.Q[src.i].cat == TC.GroupEnd or (src.Q[src.i].cat == TC.Escape and '
+              'src.i + 1 < len(src.Q) and (src.Q[src.i + 1].text == "end" or src.Q[src.i + 1].text == "item"))')
+_LIST_INV = lambda var: [
+    A('inv', 'inv(src)'), A('range', 'old(src.i) <= src.i and src.i <= len(src.Q)'),
+    A('exact', 'tolerance == 0 and TL(%s) ==> SL(%s) == %s' % (var, var, Wx('old(src.i)', 'src.i'))),
+    A('non-blank', 'tolerance == 0 and CLN(%s) ==> NW(SL(%s)) == NW(%s)' % (var, var, Wx('old(src.i)', 'src.i')))]
+REG.add(Contract(
+    'reader.read_item', types={'src': 'Buffer', 'tolerance': 'int'}, result='seq[E]', requires=SRC_REQ,
+    modifies=['src.i', 'src.m'], props=['C06', 'C08', 'C02', 'C01'], measure=(MEASURE, RANK['read_item']),
+    raises=dict(ALLOWED),
+    ensures=SRC_KEEP + [
+        P(['C08', 'C01'], 'exact', 'tolerance == 0 and TL(result) ==> SL(result) == ' + Wx('old(src.i)', 'src.i')),
+        P(['C08'], 'non-blank', 'tolerance == 0 and CLN(result) ==> NW(SL(result)) == NW(%s)' % Wx('old(src.i)', 'src.i')),
+        P(['C02'], 'owns-up-to-next-item-or-end', _STOP_ITEM)],
+    loops={0: Loop(ghost={'extras': 'seq[E]'}, invariant=_LIST_INV('extras'), decreases=MEASURE)}))
+
+# ---------------------------------------------------------------------- read_math_env (one case per math class)
+for _cls in data_c.MATHS:
+    _short = _cls.split('.')[1]
+    REG.add(Contract(
+        'reader.read_math_env', case=_short, types={'src': 'Buffer', 'expr': 'UExpr:' + _cls, 'tolerance': 'int'},
+        result='UExpr', requires=SRC_REQ, modifies=['src.i', 'src.m', 'expr.contents'],
+        props=['C06', 'C08', 'C12', 'C01'], measure=(MEASURE, RANK['read_math_env']), raises=dict(ALLOWED),
+        ensures=SRC_KEEP + [
+            A('same-object', 'result is expr'),
+            P(['C12'], 'closed-by-its-own-delimiter',
+              'src.i >= old(src.i) + 1 and src.Q[src.i - 1].cat == clsattr(expr, "token_end")'),
+            A('tight-monotone', 'TL(expr.contents) ==> TL(old(expr.contents))'),
+            A('clean-monotone', 'CLN(expr.contents) ==> CLN(old(expr.contents))'),
+            P(['C08', 'C12', 'C01'], 'exact',
+              'tolerance == 0 and TL(expr.contents) ==> concat(SL(expr.contents), clsattr(expr, "end")) == '
+              'concat(SL(old(expr.contents)), %s)' % Wx('old(src.i)', 'src.i')),
+            P(['C08'], 'non-blank',
+              'tolerance == 0 and CLN(expr.contents) ==> concat(NW(SL(expr.contents)), clsattr(expr, "end")) == '
+              'concat(NW(SL(old(expr.contents))), NW(%s))' % Wx('old(src.i)', 'src.i'))],
+        loops={0: Loop(ghost={'contents': 'seq[E]'}, invariant=_LIST_INV('contents'), decreases=MEASURE,
+                       modifies=['src.i', 'src.m'])}))
+data_c.CONCAT_HOOKS.append(lambda st, old, add, new: st.fact(CLN(new) == And(CLN(old), CLN(add))))
